@@ -34,6 +34,13 @@ package bfe_server
 //     values, so any mixture is visible.
 //   * balancing: the (sub-cluster, backend) a request obtains, or its failure, is an outcome
 //     the request has under one of the gslb versions alone.
+//   * transport: the five parameters setTransports compares (ResponseHeaderTimeout,
+//     MaxIdleConnsPerHost, MaxConnsPerHost, ReqWriteBufferSize, ReqFlushInterval) of the real
+//     *bfe_http.Transport handed to the request are read, unlocked as the real RoundTrip reads
+//     them, when the request is sent and again before RoundTrip returns (a scheduling point in
+//     between): they must be those of the request's cluster in ONE version, not older than the
+//     request's snapshot, and must not change under the request. Versions 1->2 differ only in
+//     TimeoutResponseHeader, 2->3 only in MaxIdleConnsPerHost.
 //   * tables that bfe looks up once per phase (parameters copied into the shared balancer,
 //     module rule tables) cannot give a per-request snapshot by construction; demanded of them:
 //     every look-up returns the content of ONE version, and a request never works with a version
@@ -123,6 +130,36 @@ type c15files struct {
 	host, vip, route, cluster string
 }
 
+// c15tparams are the per-cluster parameters ReverseProxy.setTransports compares to decide whether
+// a reload needs a new transport for a cluster (they live in the shared *bfe_http.Transport).
+// Version 1 -> 2 of a cluster differ ONLY in TimeoutResponseHeader, version 2 -> 3 ONLY in
+// MaxIdleConnsPerHost; the other three identify the cluster.
+type c15tparams struct {
+	rht      time.Duration // ResponseHeaderTimeout
+	maxIdle  int
+	maxConns int
+	wbuf     int
+	flush    time.Duration
+}
+
+func c15tparamsOf(z int, cluster string) c15tparams {
+	k := c15cidx(int(cluster[1]-'0'), int(cluster[2]-'0'))
+	tp := c15tparams{rht: time.Duration(51000+k) * time.Millisecond, maxConns: 100 + k, wbuf: 512 + k, flush: time.Duration(k) * time.Millisecond}
+	if z >= 2 {
+		tp.rht = time.Duration(52000+k) * time.Millisecond
+	}
+	if z >= 3 {
+		tp.maxIdle = 2
+	}
+	return tp
+}
+
+// c15readTransport reads the five fields the way the real RoundTrip / connection code does: plain,
+// unlocked, race-instrumented reads of the shared transport object.
+func c15readTransport(t *bfe_http.Transport) c15tparams {
+	return c15tparams{rht: t.ResponseHeaderTimeout, maxIdle: t.MaxIdleConnsPerHost, maxConns: t.MaxConnsPerHost, wbuf: t.ReqWriteBufferSize, flush: t.ReqFlushInterval}
+}
+
 func c15writeServerConf(dir string, z int) c15files {
 	ver := fmt.Sprintf("V%d", z)
 	hosts := c15M{}
@@ -143,11 +180,12 @@ func c15writeServerConf(dir string, z int) c15files {
 	for x := 1; x <= c15nver; x++ {
 		for y := 1; y <= c15nver; y++ {
 			sec := func(j int) int { return c15code(z, x, y, j) * 100 * 1000 } // milliseconds
+			tp := c15tparamsOf(z, c15cluster(x, y))
 			clusters[c15cluster(x, y)] = c15M{
-				"BackendConf":  c15M{"TimeoutConnSrv": 2000, "TimeoutResponseHeader": 50000, "MaxIdleConnsPerHost": 0, "RetryLevel": 0},
+				"BackendConf":  c15M{"TimeoutConnSrv": 2000, "TimeoutResponseHeader": int(tp.rht / time.Millisecond), "MaxIdleConnsPerHost": tp.maxIdle, "MaxConnsPerHost": tp.maxConns, "RetryLevel": 0},
 				"CheckConf":    c15M{"Schem": "tcp", "FailNum": 1000, "CheckInterval": 1000},
 				"GslbBasic":    c15M{"CrossRetry": 0, "RetryMax": z, "HashConf": c15M{"HashStrategy": 1, "HashHeader": "Cookie:UID", "SessionSticky": false}},
-				"ClusterBasic": c15M{"TimeoutReadClient": sec(1), "TimeoutWriteClient": sec(2), "TimeoutReadClientAgain": sec(3), "ReqWriteBufferSize": 512, "ReqFlushInterval": 0, "ResFlushInterval": 0, "CancelOnClientClose": false},
+				"ClusterBasic": c15M{"TimeoutReadClient": sec(1), "TimeoutWriteClient": sec(2), "TimeoutReadClientAgain": sec(3), "ReqWriteBufferSize": tp.wbuf, "ReqFlushInterval": int(tp.flush / time.Millisecond), "ResFlushInterval": 0, "CancelOnClientClose": false},
 			}
 		}
 	}
@@ -241,9 +279,24 @@ func (w *c15rw) WriteHeader(s int) {
 	}
 }
 
-type c15stub struct{}
+// c15stub stands where the real transport's RoundTrip would be called. It keeps the real
+// *bfe_http.Transport that getTransport handed to the request and does what the real RoundTrip does
+// with it as far as reloads are concerned: it reads the transport's parameters when the request is
+// sent, waits (a scheduling point: the real one blocks on the backend), and reads
+// ResponseHeaderTimeout etc. again before it returns (persistConn.roundTrip reads
+// pc.t.ResponseHeaderTimeout after the request was written).
+type c15stub struct {
+	real *bfe_http.Transport
+	o    *c15obs
+}
 
-func (c15stub) RoundTrip(req *bfe_http.Request) (*bfe_http.Response, error) {
+func (s c15stub) RoundTrip(req *bfe_http.Request) (*bfe_http.Response, error) {
+	if s.real != nil && s.o != nil {
+		s.o.tpSeen = true
+		s.o.tp1 = c15readTransport(s.real)
+		vsched.Yield("RoundTrip: waiting for the backend")
+		s.o.tp2 = c15readTransport(s.real)
+	}
 	return &bfe_http.Response{
 		Status: "200 OK", StatusCode: 200, Proto: "HTTP/1.1", ProtoMajor: 1, ProtoMinor: 1,
 		Header: bfe_http.Header{"X-Backend": []string{req.URL.Host}}, Body: io.NopCloser(strings.NewReader("ok")),
@@ -268,6 +321,8 @@ type c15obs struct {
 	fwCalled bool
 	backend  string // "sub/addr:port"
 	retryMax int
+	tpSeen   bool       // RoundTrip was called with a real *bfe_http.Transport behind the stub
+	tp1, tp2 c15tparams // its parameters when the request was sent / right before RoundTrip returned
 	status   int
 	errCode  string
 	action   int
@@ -357,7 +412,9 @@ func (e *c15env) forward(req *bfe_basic.Request) int {
 		}
 	}
 	// the backend is a stub: no network
-	req.Trans.Transport = c15stub{}
+	st := c15stub{o: c15obsOf(req)}
+	st.real, _ = req.Trans.Transport.(*bfe_http.Transport)
+	req.Trans.Transport = st
 	return bfe_module.BfeHandlerGoOn
 }
 
@@ -715,7 +772,7 @@ func c15rank(v, final int) int {
 }
 
 func c15obsKey(o *c15obs) string {
-	return fmt.Sprintf("snap=%s kept=%v prod=%s tag=%s cl=%s bk=%s rm=%d st=%d err=%s rd=%v wr=%v hdr=%s/%s rw=%s act=%d", o.snapVer, o.snapKept, o.product, o.tag, o.cluster, o.backend, o.retryMax, o.status, o.errCode, o.reads, o.writes, o.reqHdr, o.respHdr, o.rewrote, o.action)
+	return fmt.Sprintf("snap=%s kept=%v prod=%s tag=%s cl=%s bk=%s rm=%d st=%d err=%s rd=%v wr=%v hdr=%s/%s rw=%s act=%d tp=%v/%v", o.snapVer, o.snapKept, o.product, o.tag, o.cluster, o.backend, o.retryMax, o.status, o.errCode, o.reads, o.writes, o.reqHdr, o.respHdr, o.rewrote, o.action, o.tp1, o.tp2)
 }
 
 func (e *c15env) check(r *vk.Run, sc c15scn, id string, out vsched.Outcome, res *c15result, raceSig func() []string) {
@@ -829,6 +886,37 @@ func (e *c15env) check(r *vk.Run, sc c15scn, id string, out vsched.Outcome, res 
 		}
 		if o.status != 200 {
 			r.Violation("request:status", id, who+": status is not 200 although a backend answered")
+			continue
+		}
+		// transport parameters: the transport object handed to the request must not change under
+		// it, and must not be older than the request's snapshot
+		if !o.tpSeen {
+			r.Violation("transport:none", id, who+": RoundTrip was not called with a *bfe_http.Transport of the cluster")
+			continue
+		}
+		tv := 0
+		for z := c15nver; z >= 1; z-- {
+			if o.tp1 == c15tparamsOf(z, o.cluster) {
+				tv = z
+			}
+		}
+		// versions that share all five parameters cannot be told apart: take the one nearest to s
+		if o.tp1 == c15tparamsOf(s, o.cluster) {
+			tv = s
+		}
+		switch {
+		case o.tp1 != o.tp2:
+			r.Violation("transport:params-changed-under-request", id, fmt.Sprintf("%s: the transport handed to the request had %+v when the request was sent and %+v before RoundTrip returned: a reload wrote into the shared transport object", who, o.tp1, o.tp2))
+			continue
+		case tv == 0:
+			r.Violation("transport:params-of-no-version", id, fmt.Sprintf("%s: transport parameters %+v are not those of cluster %s in any version", who, o.tp1, o.cluster))
+			continue
+		case tv == s:
+			r.Outcome("transport:same-version-as-snapshot")
+		case c15rank(tv, final) > c15rank(s, final):
+			r.Outcome("transport:newer-than-snapshot(looked up by cluster name after the reload; not judged)")
+		default:
+			r.Violation("transport:params-older-than-request-snapshot", id, fmt.Sprintf("%s: snapshot version %d, transport parameters of version %d: %+v", who, s, tv, o.tp1))
 			continue
 		}
 		// Tables that bfe looks up once per phase (balancer parameters, module rule tables) cannot
